@@ -147,6 +147,9 @@ C20_GracefulEnd == RJudged /\ ~Refused /\ RQ.e.exiting /\ Ev.flushed /\ ~Ev.ferr
                      /\ RPost2.path = <<>> /\ RPost2.c.frames = <<EmptyF>> /\ RPost2.c.used = 0
                      /\ TERMINATE \notin RPost2.flags /\ ClientFlags(RPost2) = ClientFlags(RPost)
                      /\ Ev.outlen > 0
+\* the value appended to the final output is the last value loaded - also when that is the empty value
+C20_ExitValue == RJudged /\ ~Refused => /\ RQ.e.exit = V(Ev.exit.id, Ev.exit.len)
+                                         /\ RQ.e.s.c.last = RPost.c.last
 C20_Blocked == IsReq /\ ~Refused /\ TERMINATE \in RPre.flags /\ ~Restarts =>
                      /\ ~Ev.cont /\ Ev.ext = <<>> /\ Ev.outlen = 0 /\ Ev.fext = <<>> /\ Ev.panic = ""
                      /\ PersProj(RPost2) = PersProj(RPre)
@@ -192,6 +195,7 @@ C17_AsIfNeverSent == IsPair("insert") => Ev.a = Ev.b
 \* through it gives exactly what was saved, whatever the object held before
 C07_Reuse == IsPair("reuse") => Ev.a = Ev.b
 \* ... and a request served through such a persister (mode "R") leaves the cache as consistent as the stored session was
+C07_ReuseExit == IsReq /\ Ev.mode = "R" /\ RJudged /\ ~Refused => /\ RQ.e.exit = V(Ev.exit.id, Ev.exit.len) /\ RQ.e.s.c.last = RPost.c.last
 C07_ReuseConsistent == IsReq /\ Ev.mode = "R" /\ Ev.panic = "" /\ Consistent(RPre.c) => Consistent(RPost2.c)
 
 (***************************************************************************)
